@@ -4,10 +4,12 @@ _t0=$(date +%s.%N)
 _rc=0
 _parts=""
 if [ "$tier" = "thorough" ]; then
-  _f2="c01 c02 c03 c05 c06 c07 c08 c09 c10 c12 c13 c17 c18 c19"
+  _f2="c01 c02 c03 c05 c06 c07 c08 c09 c10 c11 c12 c13 c17 c18 c19"
 else
-  _f2="c01 c02 c03 c05 c06 c07 c08 c09 c12 c13 c17 c18 c19"
+  _f2="c01 c02 c03 c05 c06 c07 c08 c09 c11 c12 c13 c17 c18 c19"
 fi
+# the two largest thorough spaces (2*10^9 add/sub pairs, all 2^32 floats) stay at their quick size here
+_tier_of() { case "$1" in c01|c08) echo quick ;; *) echo "$tier" ;; esac; }
 build rel c14 $_f2 || exit 2
 build relcheck c14 $_f2 || exit 2
 for cfg in rel relcheck; do
@@ -18,7 +20,7 @@ done
 # F2: complement.  The release run of each space is what that property's own check does; here the
 # debug-assertion profile is added, and the oracle is the outcome class only.
 for b in $_f2; do
-  NBMC_AS=C14 NBMC_ONLY_CLASS=1 NBMC_NO_PYREF=1 NBMC_PART=$b-relcheck NBMC_CONFIG=relcheck "$(bindir relcheck)/$b" "$tier" | grep -v "^C14\[" ; _r=${PIPESTATUS[0]}
+  NBMC_AS=C14 NBMC_ONLY_CLASS=1 NBMC_NO_PYREF=1 NBMC_PART=$b-relcheck NBMC_CONFIG=relcheck "$(bindir relcheck)/$b" "$(_tier_of $b)" | grep -v "^C14\[" ; _r=${PIPESTATUS[0]}
   [ $_r -gt $_rc ] && _rc=$_r
   _parts="$_parts $b-relcheck"
 done
